@@ -269,6 +269,17 @@ class Splicer:
                 if k >= len(f.loops):
                     raise AnchorLost('%s: loop %d not found' % (f.path, k))
                 self.add(f.loops[k].body_close + 1, '\n' + block, tag)
+            elif a[0] == 'match_scrutinee':
+                # `match E {`  ->  `match { let vshim_scrut = E; proof { .. } vshim_scrut } {`  (E stays verbatim; only text is added)
+                pos = self.find_line(f, a[1], anchor)
+                eol = self.body.index('\n', pos)
+                line = self.body[pos:eol]
+                k = line.find('match ')
+                if k < 0 or not line.rstrip().endswith('{'):
+                    raise AnchorLost('%s: anchor %r is not a `match E {` line' % (f.path, anchor))
+                brace = pos + len(line.rstrip()) - 1
+                self.add(pos + k + len('match '), '{ let vshim_scrut = ', tag)
+                self.add(brace, '; proof {\n%s\n} vshim_scrut } ' % text, tag)
             elif a[0] in ('before', 'after'):
                 pos = self.find_line(f, a[1], anchor)
                 if a[0] == 'before':
